@@ -23,7 +23,7 @@ ASSUMPTIONS = ['the renderer (term -> source text) is the inverse of the documen
 
 def plan(tier, seed):
     if tier == 'quick':
-        return {'n': 36000, 'deadline': 150,
+        return {'n': 20000, 'deadline': 150,
                 'floor': {'distinct_nontrivial': 4000, 'to_python_checked': 5000, 'twin_unifications': 25000,
                           'negative_twins': 5000, 'interning_checked': 8000, 'cross_engine_unifications': 5000,
                           'quoted_atoms': 8000, 'non_ascii_atoms': 3000, 'atoms_with_quote_or_newline': 2000}}
@@ -65,6 +65,10 @@ def gen_literal(rng, d, c):
         r2 = rng.random()
         if r2 < 0.3:
             return A(rng.choice(['a', 'b', 'foo', 'x_1', 'aB9', '[]']))
+        if r2 < 0.38:
+            # quoted atoms spelled like the variables of the pool, like internal names, like two arguments
+            c['quoted_atoms'] = c.get('quoted_atoms', 0) + 1
+            return ('qa', rng.choice(['X', 'Y', 'Zed', '_Under', 'T', '_', 'x1', 'arg1', 'a,b', 'X,Y']))
         if r2 < 0.65:
             t = rand_text(rng)
             c['quoted_atoms'] = c.get('quoted_atoms', 0) + 1
@@ -127,6 +131,21 @@ def to_term(l, cnt):
     return L(items, to_term(l[2], cnt) if l[2] is not None else NIL)
 
 
+def confusable_twin(l):
+    """the literal with every variable replaced by the quoted atom of the same text and vice versa"""
+    k = l[0]
+    if k == 'v':
+        return ('qa', l[1])
+    import re
+    if k == 'qa' and re.fullmatch(r'[A-Z_][A-Za-z0-9_]*', l[1]) and l[1] != '_':
+        return V(l[1])
+    if k == 'cmp':
+        return ('cmp', l[1], [confusable_twin(a) for a in l[2]])
+    if k == 'lst':
+        return ('lst', [confusable_twin(a) for a in l[1]], l[2])
+    return l
+
+
 def perturb(rng, t):
     """change one leaf (for the negative twin); returns None if there is nothing to change"""
     if t[0] == 'a':
@@ -154,7 +173,11 @@ def judge(ctx, lit, rng, c):
     text = render(lit)
     term = to_term(lit, [0])
     w = {'literal': text}
+    twin = confusable_twin(lit)
+    ttext = render(twin)
     src = 'p(%s).\nh(%s) :- true.\nb(Bv) :- Bv = %s.\nq(Qa, Qb) :- Qa = Qb.\n' % (text, text, text)
+    # two literals with the same spelling but different structure in ONE clause (head and body)
+    src += 'pp(%s, %s).\npb(Pa, Pb) :- Pa = %s, Pb = %s.\n' % (text, ttext, ttext, text)
     try:
         code = real.compile(src)
     except Exception as e:
@@ -199,6 +222,15 @@ def judge(ctx, lit, rng, c):
                 if objs[0] is not yp.atom(term[1]) or yp.atom(term[1]) is not yp.atom(term[1]):
                     return {'kind': 'atom_not_interned', 'detail': {'position': pred, 'name': term[1]}, 'witness': w}, None
                 c['interning_checked'] = c.get('interning_checked', 0) + 1
+        cnt = [0]
+        pair = [to_term(lit, cnt), to_term(twin, cnt)]
+        for pred, want in (('pp', pair), ('pb', [pair[1], pair[0]])):
+            Pa, Pb = yp.variable(), yp.variable()
+            got = [snap_real(E, [Pa, Pb]) for _ in yp.query(pred, [Pa, Pb])]
+            if got != [canon(want, {})]:
+                return {'kind': 'literal_denotes_other_term', 'detail': {'position': pred + ' (two similar literals in one clause)',
+                                                                          'expected': canon(want, {}), 'got': got}, 'witness': dict(w, twin=ttext)}, None
+            c['similar_literal_pairs'] = c.get('similar_literal_pairs', 0) + 1
         # API-built twins, built in this engine and in a second engine
         for eng, label in ((yp, 'same_engine'), (yp2, 'other_engine')):
             for pos in ('fact', 'head', 'body', 'query'):
